@@ -375,4 +375,90 @@ theorem countP_eq_keptUpTo (NF : Table) :
   unfold keptUpTo
   congr 1
 
+/-! ### any schedule of the per-node iterations gives the same table -/
+
+theorem keptBefore_eq (NF : Table) (i : Nat) : keptBefore NF i = (keptUpTo NF i).length := rfl
+
+theorem keptBefore_lt_of_lt (NF : Table) {j i : Nat} (hji : j < i)
+    (hj : 3 ≤ valence (rowAt NF j)) : keptBefore NF j < keptBefore NF i := by
+  rw [keptBefore_eq, keptBefore_eq]
+  have h1 := keptUpTo_mono NF (show j + 1 ≤ i by omega)
+  rw [keptUpTo_succ, List.length_append] at h1
+  simp only [hj, if_true, List.length_cons, List.length_nil] at h1
+  omega
+
+theorem keptBefore_inj (NF : Table) {i j : Nat} (hi : 3 ≤ valence (rowAt NF i))
+    (hj : 3 ≤ valence (rowAt NF j)) (h : keptBefore NF i = keptBefore NF j) : i = j := by
+  rcases Nat.lt_trichotomy i j with hlt | heq | hlt
+  · have := keptBefore_lt_of_lt NF hlt hi; omega
+  · exact heq
+  · have := keptBefore_lt_of_lt NF hlt hj; omega
+
+/-- the kept node written at position `keptBefore NF i` of the kept list is `i` itself -/
+theorem keptUpTo_get (NF : Table) (n i : Nat) (hin : i < n) (hi : 3 ≤ valence (rowAt NF i)) :
+    (keptUpTo NF n)[keptBefore NF i]? = some i := by
+  have hsplit : List.range n = List.range (i + 1)
+      ++ List.map (fun x => i + 1 + x) (List.range (n - (i + 1))) := by
+    have := @List.range_add (i + 1) (n - (i + 1))
+    rw [show i + 1 + (n - (i + 1)) = n by omega] at this
+    exact this
+  have h1 : keptUpTo NF n = keptUpTo NF (i + 1)
+      ++ (List.map (fun x => i + 1 + x) (List.range (n - (i + 1)))).filter
+          (fun j => decide (3 ≤ valence (rowAt NF j))) := by
+    unfold keptUpTo
+    rw [hsplit, List.filter_append]
+  rw [h1, keptUpTo_succ]
+  simp only [hi, if_true, keptBefore_eq]
+  rw [List.append_assoc, List.getElem?_append_right (Nat.le_refl _), Nat.sub_self]
+  rfl
+
+theorem schedStep_length (rowOf : Nat → Nat → List Int → List Int) (NF : Table) (W : Nat)
+    (T : Table) (i : Nat) : (schedStep rowOf NF W T i).length = T.length := by
+  unfold schedStep; split <;> simp
+
+theorem sched_fold_length (rowOf : Nat → Nat → List Int → List Int) (NF : Table) (W : Nat)
+    (l : List Nat) (T : Table) : (l.foldl (schedStep rowOf NF W) T).length = T.length := by
+  induction l generalizing T with
+  | nil => rfl
+  | cons j l ih => rw [List.foldl_cons, ih, schedStep_length]
+
+/-- positions nobody in `l` writes to keep their content -/
+theorem sched_fold_untouched (rowOf : Nat → Nat → List Int → List Int) (NF : Table) (W : Nat)
+    (l : List Nat) (T : Table) (k : Nat)
+    (h : ∀ j ∈ l, 3 ≤ valence (rowAt NF j) → keptBefore NF j ≠ k) :
+    (l.foldl (schedStep rowOf NF W) T)[k]? = T[k]? := by
+  induction l generalizing T with
+  | nil => rfl
+  | cons j l ih =>
+    rw [List.foldl_cons, ih _ (fun j' hj' => h j' (List.mem_cons_of_mem _ hj'))]
+    unfold schedStep
+    split
+    · rfl
+    · rename_i hv
+      have := h j List.mem_cons_self (by omega)
+      rw [List.getElem?_set_ne this]
+
+/-- a kept node of the schedule finds its own row at its own position, whatever ran before or after -/
+theorem sched_fold_get (rowOf : Nat → Nat → List Int → List Int) (NF : Table) (W : Nat)
+    (l : List Nat) (T : Table) (i : Nat) (hi : 3 ≤ valence (rowAt NF i)) (hmem : i ∈ l)
+    (hlen : keptBefore NF i < T.length) :
+    (l.foldl (schedStep rowOf NF W) T)[keptBefore NF i]? = some (rowOf W i (rowAt NF i)) := by
+  induction l generalizing T with
+  | nil => cases hmem
+  | cons j l ih =>
+    rw [List.foldl_cons]
+    by_cases hin : i ∈ l
+    · exact ih _ hin (by rw [schedStep_length]; exact hlen)
+    · have hji : j = i := by
+        rcases List.mem_cons.mp hmem with h | h
+        · exact h.symm
+        · exact absurd h hin
+      subst hji
+      rw [sched_fold_untouched]
+      · unfold schedStep
+        have : ¬ valence (rowAt NF j) < 3 := by omega
+        rw [if_neg this, List.getElem?_set_self hlen]
+      · intro j' hj' hk heq
+        exact hin (keptBefore_inj NF hk hi heq ▸ hj')
+
 end UxVerif.Dual
